@@ -106,13 +106,20 @@ fn stream_find(s: &S, rdr: &mut SchedReader<'_>) -> Result<Vec<io::Result<M>>, S
         it: I,
         cap: usize,
     ) -> Vec<io::Result<M>> {
+        // Items up to the end of the iteration; the caller of a stream search
+        // may go on after an error (a transient fault), so errors do not end
+        // the drain - at most 3 of them are kept, then it stops.
         let mut v = vec![];
+        let mut errs = 0;
         for item in it.take(cap) {
             match item {
                 Ok(m) => v.push(Ok(mm(m))),
                 Err(e) => {
                     v.push(Err(e));
-                    break;
+                    errs += 1;
+                    if errs >= 3 {
+                        break;
+                    }
                 }
             }
         }
@@ -707,6 +714,33 @@ pub fn c18_check(rep: &mut Report, c: &StreamCase, s: &S, rng: &mut Rng) {
                 }
                 if surfaced && rolls0 > 0 {
                     rep.tally("read_faults_surfaced_in_rolling_cases");
+                }
+                // Continuation after the (one-off) fault: whatever the iterator
+                // yields afterwards, all its matches together must still be a
+                // prefix of the fault-free sequence (an iterator that keeps
+                // returning the error yields no further matches, which is
+                // fine), and if it ends, it may only end after the reader
+                // reported end of stream - then nothing may be missing.
+                if surfaced {
+                    let all_ok: Vec<M> = items.iter().filter_map(|i| i.as_ref().ok().copied()).collect();
+                    let nerr = items.iter().filter(|i| i.is_err()).count();
+                    if all_ok.len() > ms.len() {
+                        rep.tally("iterations_resumed_after_fault");
+                    }
+                    if !base_ms.starts_with(&all_ok) {
+                        vio(rep, "wrong_matches_after_resuming", format!(
+                            "after the read fault at call {} the iterator went on and yielded {:?} in total; the fault-free sequence is {:?}",
+                            k, &all_ok[..all_ok.len().min(12)], &base_ms[..base_ms.len().min(12)]));
+                    } else if nerr < 3 && items.len() < c.data.len() + 8 {
+                        // the iteration ended with None
+                        if !rd.saw_eof() {
+                            vio(rep, "ended_before_eof_after_fault", format!("after the read fault at call {} the iterator ended although the reader never reported end of stream", k));
+                        } else if all_ok != base_ms {
+                            vio(rep, "matches_lost_after_resuming", format!(
+                                "after the read fault at call {} the iterator resumed and finished with {} matches, the fault-free run has {}",
+                                k, all_ok.len(), base_ms.len()));
+                        }
+                    }
                 }
             }
         }
